@@ -58,12 +58,25 @@ func (w *walker) call(c *ast.CallExpr, mode string) {
 					k = "r"
 				}
 				w.access(se, loc, k, "syncmap")
+				w.u.Ops[len(w.u.Ops)-1].M = f.Sel.Name
 				w.expr(se.X)
 				w.args(c.Args, "sync") // Range runs its argument before it returns
+				if f.Sel.Name != "Load" && f.Sel.Name != "Range" && f.Sel.Name != "Delete" && f.Sel.Name != "LoadAndDelete" {
+					for _, a := range c.Args { // Store, LoadOrStore, Swap, CompareAndSwap: what is put into the map
+						if why := w.stateful(a); why != "" {
+							w.payload(loc, why, a.Pos())
+						}
+					}
+				}
 				return
 			case "wg":
 				w.expr(se.X)
 				return
+			}
+		}
+		if se, loc, ok := w.fieldOf(f.X); ok {
+			if tv, okT := info.Types[f.X]; okT && unsafeType(tv.Type) != "" { // a method of a value that is not safe for concurrent use
+				w.access(se, loc, "w", "plain")
 			}
 		}
 		if _, _, isOp := lockMode(f.Sel.Name); isOp && len(c.Args) == 0 && w.localMethodOf(f) == "" {
